@@ -95,7 +95,9 @@ package node
 //@   ensures result == (p == nil || p.Clean)
 
 //@ func Pointer.SetDirty
-//@   props C02 C03
+//@   props C02 C03 C13
+//@   modifies p
+//@   trustframe
 //@   ensures !p.Clean
 //@   ensures p.Node == old(p.Node) && p.Hash == old(p.Hash)
 //@   note a pointer marked dirty is what makes doCommit recompute the hash of the node below it; the database-private position is dropped with it
